@@ -23,6 +23,22 @@ Proportions, Variance, Share, Scale, Zscore, Population; proofs in Proofs/Transp
 The models of the measures themselves are tied to the code by the checks that own them
 (C01 C02 C03 C11 C12 C14 C15 C17); a change that moves a row measure and its column twin together
 is theirs to report, not C10's.
+
+Array pairings (added after the seeded change C10-6, which made `_BaseCubeCounts.factory` hand the
+("ARR", "ARR") pairing to `_ArrXCatCubeCounts`: no generated slice had two non-MR array dimensions,
+and the only array slices were those of ONE categorical array, ARR x CAT / CAT x ARR).  A second
+stream of cases (`arr-stream`, its own generator seeded with seed+10 so that the first stream is
+unchanged) crosses a BARE SUBVARIABLES dimension - kind `sv`: the items of an array variable without
+a categories dimension of the same variable, which the library types CA_SUBVAR (items by fused
+variables / a scorecard) - with another one, with an MR, or with a CAT / CAT_DATE variable, in both
+orders: the class pairs ARR x ARR, ARR x MR, MR x ARR, ARR x CAT, CAT x ARR of
+matrix/cubemeasure.py.  A cell of an `sv` dimension counts the respondents for whom the item
+applies (the survey holds it as a multiple-response variable; the response keeps the "selected"
+layer only and drops the selection dimension); items may be missing.  Everything else is as in the
+first stream: weights, numeric measures, mirrored hides / prunes / explicit orders / sorts,
+population, min-base masks, the independent tabulation in the order B, A, every paired public
+member compared with its twin (an exception on one side only is a difference), and leg (b) on a
+sample of them.
 """
 import copy
 import inspect
@@ -117,6 +133,9 @@ def classify_members():
 
 KIND_PAIRS = [(a, b) for a in ("cat", "cat_date", "mr") for b in ("cat", "cat_date", "mr")]
 ENUMS = ("datetime", "text", "binned")
+# array pairings: `sv` = a bare subvariables dimension (CA_SUBVAR without its categories dimension)
+ARR_PAIRS = ([("sv", "sv")] * 6 + [("sv", "mr"), ("mr", "sv")] * 2 +
+             [("sv", "cat"), ("cat", "sv"), ("sv", "cat_date"), ("cat_date", "sv")])
 SORT_MEASURES = ["col_percent", "row_percent", "table_percent", "count_weighted", "count_unweighted",
                  "col_base_weighted", "row_base_weighted", "col_base_unweighted",
                  "row_base_unweighted", "table_base_weighted", "table_base_unweighted",
@@ -166,6 +185,13 @@ def make_var(rng, kind, alias):
                             numeric=rng.choice(["none", "all", "partial"]))
     if kind == "mr":
         return gen.make_mr(rng, alias, n_items=rng.randint(1, 3))
+    if kind == "sv":
+        # held by the survey as a multiple-response variable ("the item applies" = selected); the
+        # response keeps the selected layer only (drop_selection)
+        v = gen.make_mr(rng, alias, n_items=rng.randint(1, 4))
+        if len(v.items) >= 2 and rng.random() < 0.25:
+            rng.choice(v.items)["missing"] = True
+        return v
     if kind == "ca":
         return gen.make_ca(rng, alias, n_items=rng.randint(1, 3), n_valid=rng.randint(1, 4))
     return gen.make_enum(rng, alias, kind, n_valid=rng.randint(1, 3))
@@ -176,7 +202,7 @@ def dim_ids(v, which=None):
     if v.kind in ("cat", "cat_date") or (v.kind == "ca" and which == "cats"):
         return [c["id"] for c in v.cats if not c["missing"]]
     if v.kind in ("mr", "ca"):
-        return [it["id"] for it in v.items]
+        return [it["id"] for it in v.items if not it.get("missing")]
     return [e["id"] for e in v.elements if not e["missing"]]
 
 
@@ -235,9 +261,11 @@ def random_dim_transform(rng, v, which, opp_v, opp_which, numeric, has_opp_inser
     return d
 
 
-def gen_case(rng, k):
+def gen_case(rng, k, arr=False):
     r = rng.random()
-    if r < 0.12:
+    if arr:
+        kinds = rng.choice(ARR_PAIRS)
+    elif r < 0.12:
         kinds = ("ca", None)
     else:
         kinds = rng.choice(KIND_PAIRS)
@@ -302,7 +330,81 @@ def swap_perm(sv, aliases):
     return blocks[1] + blocks[0]
 
 
+def sv_aliases(case):
+    return [a for a, kd in zip(case["aliases"], case["kinds"]) if kd == "sv"]
+
+
+def drop_selection(sv, aliases, svs, kw):
+    """the response over `aliases` (natural order) in which every variable of `svs` contributes a
+    bare subvariables dimension: the "selected" layer of its selection axis, selection dimension
+    removed  -> (response, axes, shape)"""
+    resp = cu.build_response(sv, aliases, None, **kw)
+    axes = cu.response_axes(sv, aliases, None)
+    shape, _ = gen.tabulate(sv, aliases, weight=False)
+    drop = [n for n, a in enumerate(axes) if a["role"] == "mr_sel" and a["alias"] in svs]
+    index = tuple(gen.SEL if n in drop else slice(None) for n in range(len(shape)))
+
+    def layer(data):
+        arr = np.empty(len(data), dtype=object)
+        for k, x in enumerate(data):
+            arr[k] = x
+        return list(arr.reshape(shape)[index].flatten())
+
+    res = resp["result"]
+    res["counts"] = layer(res["counts"])
+    for m in res["measures"].values():
+        m["data"] = layer(m["data"])
+    res["dimensions"] = [d for n, d in enumerate(res["dimensions"]) if n not in drop]
+    out_axes = []
+    for n, a in enumerate(axes):
+        if n in drop:
+            continue
+        a = dict(a)
+        if a["alias"] in svs:
+            a["role"] = "ca_items"
+        out_axes.append(a)
+    return resp, out_axes, tuple(s for n, s in enumerate(shape) if n not in drop)
+
+
+def finish_arr_case(case):
+    """a case of the arr-stream: at least one `sv` dimension"""
+    sv = cu.survey_from_json(case["survey"])
+    case["_sv"] = sv
+    svs = sv_aliases(case)
+    kw = dict(measures=tuple(case["measures"]), numvar=case["numvar"],
+              valid_counts=case["valid_counts"], unavailable=set(case["unavailable"]))
+    ab, axes, shape = drop_selection(sv, case["aliases"], svs, kw)
+    n0 = len([a for a in axes if a["alias"] == case["aliases"][0]])
+    perm = list(range(n0, len(axes))) + list(range(n0))
+    ba = copy.deepcopy(ab)
+    res = ba["result"]
+    res["dimensions"] = [res["dimensions"][p] for p in perm]
+    res["counts"] = cu.permute_flat(res["counts"], shape, perm)
+    for m in res["measures"].values():
+        m["data"] = cu.permute_flat(m["data"], shape, perm)
+    for r in (ab, ba):
+        r["result"].update(copy.deepcopy(case["filter_stats"] or {}))
+    case["_ab"], case["_ba"], case["_perm"] = ab, ba, perm
+    case["_axes"] = axes
+    case["_tab_mismatch"] = None
+    if not case["unavailable"]:
+        ind, _, _ = drop_selection(sv, case["aliases"][::-1], svs, dict(kw, unavailable=set()))
+        if ind["result"]["counts"] != ba["result"]["counts"]:
+            case["_tab_mismatch"] = "counts"
+        for m, md in ind["result"]["measures"].items():
+            if md["data"] != ba["result"]["measures"][m]["data"]:
+                case["_tab_mismatch"] = m
+        if ([d["references"]["alias"] for d in ind["result"]["dimensions"]] !=
+                [d["references"]["alias"] for d in ba["result"]["dimensions"]]):
+            case["_tab_mismatch"] = "dimensions"
+    case["_t_ab"] = case["transforms"]
+    case["_t_ba"] = mirror_transforms(case["transforms"])
+    return case
+
+
 def finish_case(case):
+    if "sv" in case["kinds"]:
+        return finish_arr_case(case)
     sv = cu.survey_from_json(case["survey"])
     case["_sv"] = sv
     kw = dict(measures=tuple(case["measures"]), numvar=case["numvar"],
@@ -481,6 +583,8 @@ def run_relational(case, members):
             fails.append((name, twin, d))
     shp = impl.get(A, "shape")
     info["shape"] = impl.tolist(shp[1]) if shp[0] == "ok" else None
+    dts = impl.get(A, "dimension_types")
+    info["types"] = [getattr(t, "name", str(t)) for t in dts[1]] if dts[0] == "ok" else None
     if shp[0] != "ok":
         # neither order may be unreadable on one side only: that is a failure of the relation
         shb = impl.get(B, "shape")
@@ -530,6 +634,14 @@ def public_from_model(so, which):
     return so["table_bases"]
 
 
+def nested_shape(x):
+    out = []
+    while isinstance(x, (list, tuple)):
+        out.append(len(x))
+        x = x[0] if len(x) else None
+    return out
+
+
 def compare_model(case, toks):
     """model (transposed extractors on the A x B payload) vs implementation on B x A, no transforms
     and no view insertions' rows: base blocks are read through the signed orders"""
@@ -557,7 +669,13 @@ def compare_model(case, toks):
         if r[0] != "ok":
             fails.append((name, {"impl": list(r)[:3]}))
             continue
-        mm = cu.mat_mismatch(impl.tolist(r[1]), exp[name], name)
+        try:
+            mm = cu.mat_mismatch(impl.tolist(r[1]), exp[name], name)
+        except (TypeError, ValueError, IndexError):
+            # a value of another rank than the model's (e.g. a 1-D margin where the model has the
+            # 2-D fall-back) is a mismatch, not a harness error
+            mm = {"what": name, "impl_shape": nested_shape(impl.tolist(r[1])),
+                  "expected_shape": nested_shape(exp[name])}
         if mm is not None:
             fails.append((name, mm))
     return fails
@@ -583,11 +701,21 @@ def ctx_for(case, name, twin, detail):
             "transformed": bool(t)}
 
 
-def evaluate(cases, rep, members, n_model, tag="cases"):
+def is_arr(case):
+    return "sv" in case["kinds"]
+
+
+def evaluate(cases, rep, members, n_model, tag="cases", n_model_arr=0):
     terms, mcases = [], []
+    quota = {False: n_model, True: n_model_arr}
     n_cmp = 0
     for case in cases:
         rep.dist("kinds:" + kinds_key(case))
+        if is_arr(case):
+            rep.dist("arr-stream")
+            rep.dist("arr-stream:class=" + cu.class_pair(case))
+            if any(it.get("missing") for v in case["_sv"].vars if v.kind == "mr" for it in v.items):
+                rep.dist("arr-stream:missing-item")
         rep.dist("weighted" if case["_sv"].weighted else "unweighted")
         t = case["transforms"] or {}
         for key in ("rows_dimension", "columns_dimension"):
@@ -613,6 +741,9 @@ def evaluate(cases, rep, members, n_model, tag="cases"):
         if nontrivial:
             rep.sample({"kinds": case["kinds"], "shape": shp, "transforms": case["transforms"],
                         "measures": case["measures"]})
+        if is_arr(case) and info.get("types"):
+            # the pairing as the LIBRARY types it (both non-MR array = CA_SUBVARxCA_SUBVAR)
+            rep.dist("arr-stream:types=" + "x".join(info["types"]) + ("" if nontrivial else "(trivial)"))
         if info.get("both_raise"):
             rep.dist("both-orders-raise:" + str(info["both_raise"]))
         sorted_by_value = has_value_sort(case["transforms"])
@@ -624,7 +755,8 @@ def evaluate(cases, rep, members, n_model, tag="cases"):
                           {"member": name, "twin_on_transposed": twin, "diff": detail,
                            "failing_members": [f[0] for f in fails][:30]},
                           ctx_for(case, name, twin, detail))
-        if len(mcases) < n_model and nontrivial:
+        if quota[is_arr(case)] > 0 and nontrivial:
+            quota[is_arr(case)] -= 1
             mcases.append(case)
             terms.append(model_term(case))
     coq_s = 0.0
@@ -674,7 +806,12 @@ def run(tier, seed):
     n_model = 60 if tier == "quick" else 600
     rng = random.Random(seed)
     cases = [gen_case(rng, k) for k in range(n_cases)]
-    n_cmp, n_terms, coq_s = evaluate(cases, rep, members, n_model)
+    # second stream, own generator (the first stream is what it was): array pairings
+    n_arr = 240 if tier == "quick" else 2400
+    n_model_arr = 30 if tier == "quick" else 300
+    rng_arr = random.Random(seed + 10)
+    cases += [gen_case(rng_arr, n_cases + k, arr=True) for k in range(n_arr)]
+    n_cmp, n_terms, coq_s = evaluate(cases, rep, members, n_model, n_model_arr=n_model_arr)
     pairs, selfs, outside = members
     rep.cov["rule"] = (
         "random.Random(seed): respondent-level surveys over two variables of kinds CAT, CAT_DATE, MR "
@@ -684,7 +821,11 @@ def run(tier, seed):
         "measures (sum, mean, stddev, median; valid counts; unavailable cells); view insertions incl. "
         "differences; 60% with mirrored transforms (insertions, hides, prune, explicit order, "
         "label / opposing_element / opposing_insertion sorts with the measure's direction mirrored); "
-        "population, filter statistics, min-base masks.  The B x A response is the A x B response with "
+        "population, filter statistics, min-base masks.  arr-stream (random.Random(seed+10), 240 / 2400 "
+        "cases): a bare subvariables dimension `sv` (CA_SUBVAR without a categories dimension: 1-4 items, "
+        "25% with a missing item) crossed with sv (half of the stream: ARR x ARR), mr (ARR x MR, MR x ARR), "
+        "cat / cat_date (ARR x CAT, CAT x ARR), otherwise generated and mirrored like the first stream.  "
+        "The B x A response is the A x B response with "
         "its dimensions exchanged and every array transposed (checked against the independent "
         "tabulation in the order B, A).  non-trivial = both orders give a slice with >= 1 row and >= 1 "
         "column; distinct by content hash")
@@ -714,7 +855,7 @@ def replay(path):
     d = json.load(open(path))
     case = finish_case(d["violation"]["case"])
     rep = core.Report(PID, "quick", d.get("seed", 0))
-    evaluate([case], rep, classify_members(), 1, tag="replay")
+    evaluate([case], rep, classify_members(), 1, tag="replay", n_model_arr=1)
     for v in rep.violations:
         print("REPLAY still fails:", json.dumps(v["detail"])[:700])
     if not rep.violations and not rep.known:
